@@ -591,3 +591,5 @@ pub proof fn theorem_concat_step(fs: Seq<Frame>)    //@[C08.concat]
 {
     theorem_roundtrip(&fs[0], encode_all(fs.skip(1)));
 }
+/// the nesting budget admits at least a flat array (a request)
+pub proof fn lemma_max_fuel_pos() ensures max_fuel() >= 1 { lemma_max_fuel(); }
